@@ -175,6 +175,9 @@ type c20Spec struct {
 	d    []time.Duration
 	dur  bool
 	nil_ bool
+	// reuse: the bounds are written into the very slice the previous creation of this kind and length handed over
+	// (an application that builds its bucket sets in one scratch slice), and that slice is passed again
+	reuse bool
 }
 
 func c20Specs() []c20Spec {
@@ -198,6 +201,16 @@ func c20Specs() []c20Spec {
 		{name: "V{x,1 zero-identity}", v: []float64{math.Float64frombits(zeroIdentitySum - math.Float64bits(1.0)), 1}},
 		{name: "D{2s,x zero-identity}", d: []time.Duration{2 * time.Second, time.Duration(zeroIdentitySum) - 2*time.Second}, dur: true},
 		{name: "V{} empty", v: []float64{}},
+		// as many bounds and the same identity as a set built only from its members
+		{name: "V{1,2,4}", v: []float64{1, 2, 4}},
+		{name: "V{2,2,2}", v: []float64{2, 2, 2}},
+		{name: "D{1,2,3,4}", d: []time.Duration{1, 2, 3, 4}, dur: true},
+		{name: "D{1,1,4,4}", d: []time.Duration{1, 1, 4, 4}, dur: true},
+		// a zero bound adds nothing to the identity: sets of different length that collide
+		{name: "D{0,10,20}", d: []time.Duration{0, 10, 20}, dur: true},
+		{name: "D{10,20}", d: []time.Duration{10, 20}, dur: true},
+		{name: "V{0.5,8} written into the previous slice", v: []float64{0.5, 8}, reuse: true},
+		{name: "D{2,3} written into the previous slice", d: []time.Duration{2, 3}, dur: true, reuse: true},
 	}
 }
 
@@ -211,6 +224,8 @@ func c20Jobs(tier string) []*SeqJob {
 		root := e.root
 		sub := root.SubScope("s")
 		total := 0
+		var lastV []float64
+		var lastD []time.Duration
 		for i, k := range seq {
 			sp := specs[k]
 			if i%2 == 1 {
@@ -230,9 +245,21 @@ func c20Jobs(tier string) []*SeqJob {
 			case sp.nil_:
 				cl, det, st = checkDurationHistogramOn(&env, e.root, name, nil, builtin)
 			case sp.dur:
-				cl, det, st = checkDurationHistogramOn(&env, e.root, name, tally.DurationBuckets(append([]time.Duration{}, sp.d...)), sp.d)
+				arg := append([]time.Duration{}, sp.d...)
+				if sp.reuse && len(lastD) == len(sp.d) {
+					copy(lastD, sp.d)
+					arg = lastD
+				}
+				lastD = arg
+				cl, det, st = checkDurationHistogramOn(&env, e.root, name, tally.DurationBuckets(arg), sp.d)
 			default:
-				cl, det, st = checkValueHistogramOn(&env, e.root, name, tally.ValueBuckets(append([]float64{}, sp.v...)), sp.v)
+				arg := append([]float64{}, sp.v...)
+				if sp.reuse && len(lastV) == len(sp.v) {
+					copy(lastV, sp.v)
+					arg = lastV
+				}
+				lastV = arg
+				cl, det, st = checkValueHistogramOn(&env, e.root, name, tally.ValueBuckets(arg), sp.v)
 			}
 			total += st
 			if cl != "" {
